@@ -741,18 +741,17 @@ where
 
 /// Transpose a 2D matrix represented as a 1D vector.
 pub fn transpose_vec<T: Clone>(vec: Vec<T>, num_cols: usize) -> Vec<T> {
-  // use swap to transpose in place
-  let mut vec = vec;
-  let len = vec.len();
-  let num_rows = len.div_ceil(num_cols);
-  for row in 0..num_rows {
-    for col in (row + 1)..num_cols {
-      let index1 = get_1d_index(row, col, num_cols);
-      let index2 = get_1d_index(col, row, num_cols);
-      vec.swap(index1, index2);
+  if num_cols == 0 {
+    return vec;
+  }
+  let num_rows = vec.len() / num_cols;
+  let mut transposed = Vec::with_capacity(vec.len());
+  for col in 0..num_cols {
+    for row in 0..num_rows {
+      transposed.push(vec[get_1d_index(col, row, num_cols)].clone());
     }
   }
-  vec
+  transposed
 }
 
 #[cfg(test)]
